@@ -322,6 +322,8 @@ func runC11(c *Ctx) {
 	c.rule("unset-stays-unset", "string-cast Unmangle returns the zero of the field type for a nil *string before parsing anything", 1)
 	c.rule("flatten-flag-accumulates", "in the flatten unmangler the 'any child set' flag is old || nested after a nested struct and true under a non-nil leaf, and gates the parent pointer (a variable that is present must not be dropped because a later sibling struct is empty); shared with C10", 3)
 	c10FlattenFlag(c)
+	c.rule("narrowing-guard", "an out-of-range value is an error, never truncated: every narrowing conversion of a parsed number is bounded by the strconv bit size or a dominating reflect Overflow test of the matching type; shared with C15", 10)
+	c15Narrowing(c)
 
 	w := c.W
 	f := w.fn("sources/env", "Source.Value")
